@@ -101,6 +101,18 @@ CHECKS = {
    text="The protocol is decided exhaustively on the model; on the real library every reader phase is checked for the absence of any hooked write (including in the first single-threaded run) and for digest equality of everything the consulting API reports with the single-threaded run, the adopted PROT_READ copy turns any write to topology memory by a consulting call into a crash, and the registry events emitted under the components mutex are replayed against RegInit/RegFini. Real schedules are sampled, not enumerated: that part is exploration.",
    design_ref="DESIGN.md section 6, C17",
    note="Trusted: TLC, the four guarded hooks (add-only, HWLOC_VERIF), the digest battery. Race-freedom is decided only for the shared state the model names plus all topology memory (through the read-only mapping); no ThreadSanitizer verdict is used."),
+ "C07": dict(
+   technique="Explicit TLA+ specification of synthetic descriptions (spec/Synthetic.tla: concrete syntax Render, build relation, export and round-trip relations) model-checked with TLC on a bounded grammar (spec/MC_Synthetic.tla: BFS with seed-selected stripes plus simulation, incl. the 128-level boundary from both sides); the emitted descriptions are rendered by the specification, replayed on the ASan/UBSan-built library by harness/hwv_synthetic.c and validated as ndjson traces by TLC against spec/TraceSynthetic.tla",
+   category="model_checking",
+   text="Bounded model checking plus conformance. Every word of the bounded grammar (<= 3-4 levels, arities <= 3, all index forms, all 16 export flag words, every buffer length, the 128-level boundary) that is emitted satisfies BuildRel / ExportRetRel / SnprintfRel / RoundTripRel on the real code, and 2k-11k hostile strings satisfy the weak contract (0 or -1/EINVAL, no crash). Not a proof beyond the bounds; stripes and simulation make quick a sample, thorough a 50k-description cap.",
+   design_ref="DESIGN.md section 6, C07 and section 12.3",
+   note="Trusted: TLC, the recorder's logging (cross-checked by SumOf against the project.h projection), the ASan/UBSan build. Assumptions: default type filters; conventional type order; hostile strings that may describe more than 12000 objects are parsed but not loaded; attached-NUMA index order at several depths is judged as a set only; -coverage replaced by feature counts in the evidence file."),
+ "C18": dict(
+   technique="TLC enumerates and simulates (snapshot, fault set, configuration) tuples and the load / load / XML-trip protocol from spec/MC_Snapshot.tla over the path tables of the 73 bundled Linux snapshots and x86 CPUID dumps; each tuple is executed on a hard-linked scratch copy by the ASan+UBSan+LSan recorder harness/hwv_snapshot.c, and TLC validates the recorded ndjson against spec/TraceSnapshot.tla (WellFormed, Deterministic, DisallowedRel, XmlSelfConsistent)",
+   category="model_checking",
+   text="Conformance of the real loader to the four TLA+ relations on a seeded sample of the fault space. Exhaustive only for the unmodified snapshots under every configuration, for the always-removed key paths, and (thorough) for single and pairwise removals on the ~20 snapshots with at most 60 core paths. All other fault sets are striped or simulated, because the property quantifies over all subsets of up to 16k paths.",
+   design_ref="DESIGN.md section 6, C18 and section 12.3",
+   note="Trusted: harness/project.h and project_stores.h, the 64-bit FNV digest standing for a projection logged earlier in the same behaviour, the in-process hwloc_topology_check result, Python's path tables (cross-checked by an ASSUME and by the recorder's lstat kind). Refused CPUID dumps are judged on the host's CPUID. RESTRICT_TO_*BINDING and IS_THISSYSTEM flag words are not driven. Quick takes 4-9 minutes on a loaded machine."),
  "C19": dict(
    technique="Explicit TLA+ protocol model of the master / writer / adopter sharing protocol (spec/Shmem.tla, MC_Shmem.tla: file images with damaged-field sets, address-range preparation, up to two adopted topologies, the 54-call alphabet on an adopted copy) checked by TLC (exhaustive BFS over five focused configurations plus simulation; invariants on adoption provenance, range disjointness, allowed-set changes); every emitted history is replayed on the rebuilt ASan/UBSan library in separate forked processes inside a PROT_NONE reservation by harness/hwv_shmem.c and validated by TLC against spec/TraceShmem.tla",
    category="model_checking",
